@@ -443,7 +443,7 @@ func menu(w *chain.World) []chain.Action {
 		chain.V2Pay(chain.AddrV2, true, 2), chain.V2Pay(chain.AddrThresh, true, 2), chain.V2Chain(chain.AddrV2), chain.V2SF(true), chain.V2Form(1, 2, 100), chain.V2Form(0, 1, 10), chain.V2Revise("pay"), chain.V2Renew("partial"), chain.V2Proof(), chain.V2Expire(), chain.V2Attest(), chain.V2Foundation(false), chain.V2Pay(chain.AddrV1, false, 1),
 		chain.MixedChain(), // a v2 transaction spending what a v1 transaction of the same block created
 		// same-block interactions (several MidState code paths per element): the purity bundle incl. the decode(encode()) copy runs on them too
-		chain.Seq("v1revise-twice", chain.V1Revise("pay"), chain.V1Revise("grow")), chain.Seq("v1revise+proof", chain.V1Revise("pay"), chain.V1Proof(false)), chain.Seq("v1form+revise", chain.V1Form(1, 2, 100), chain.V1Revise("pay")),
+		chain.Seq("v1revise-twice", chain.V1Revise("pay"), chain.V1Revise("grow")), chain.Seq("v1revise+proof", chain.V1Revise("pay"), chain.V1Proof(false)), chain.V1FormRevise(true),
 		chain.Seq("v2revise-twice", chain.V2Revise("pay"), chain.V2Revise("keys")), chain.Seq("v2form+revise", chain.V2Form(1, 2, 100), chain.V2Revise("pay")), chain.Seq("v2revise+renew", chain.V2Revise("pay"), chain.V2Renew("none")),
 	}
 }
@@ -655,7 +655,7 @@ func schedules(c *vf.Ctx, shapes []shape) {
 			if c.Expired() {
 				return
 			}
-			pre, dat := maxPre, vf.Pick(c, 1, 2)
+			pre, dat := maxPre, 1
 			if len(h) > 2 {
 				pre = vf.Pick(c, 1, 1)
 				dat = vf.Pick(c, 0, 1)
@@ -788,6 +788,7 @@ func racePass(c *vf.Ctx) {
 func run(c *vf.Ctx) {
 	c.Set("rule", "(a) purity bundle on every transition of a union-alphabet DFS and on invalid variants of every accepted block (duplicated last transaction, wrong payout): input digests (state, block, every proof, supplement) identical before/after ValidateBlock, ApplyBlock, RevertBlock and per-transaction MidState validation; repeated calls and a decode(encode()) copy give the same verdict / state bytes / update digest; per-transaction verdict == block verdict; returned updates and Copy()/DeepCopy() results share no memory with the inputs; (b) all interleavings of 2-3 callers on shared inputs at sync.Pool Get/Put scheduling points (before and after each) up to a preemption bound, with adversarial choice of the pooled object; (c) free-running -race pass")
 	keys := chain.NewKeys(c.Seed)
+	tStart := time.Now()
 	// (a)
 	type nv struct {
 		net  string
@@ -817,6 +818,14 @@ func run(c *vf.Ctx) {
 		m.OnTransition = func(x *chain.Explorer, prev, w *chain.World, path []string) {
 			a := w.Hist[len(w.Hist)-1]
 			c.Count("purity_bundles_valid", 1)
+			if len(a.BS.ExpiringFileContracts) >= 2 {
+				for _, t := range a.B.Transactions {
+					if len(t.StorageProofs) > 0 {
+						c.Count("blocks_with_a_proof_and_several_expiring_contracts", 1)
+						break
+					}
+				}
+			}
 			if sig, desc := purity(prev, a.B, a.BS, false); sig != "" {
 				x.Violate("purity|"+sig, desc, path)
 			}
@@ -926,6 +935,18 @@ func run(c *vf.Ctx) {
 				}
 			}
 		}
+		if v.D == 2 && sp.Require > 3 {
+			// end of a v1 proof window: three contracts expiring in one block, one of them proven in that very block
+			// (the supplement's expiring list and the block's proofs meet) - same purity bundle
+			me := *m
+			me.Name, me.Menu, me.D, me.K, me.H = "expiry", chain.ExpiryMenu, 3, 1, 6
+			if sp.Name == "mixed" {
+				me.H += 3
+			}
+			xe := chain.NewExplorer(c, &me, "C09")
+			xe.Run()
+			xe.Report(n + "/expiry/")
+		}
 		if v.D == 2 {
 			// transaction combinatorics (first: small): every ordered pair of actions merged into ONE transaction, each
 			// block with the same purity bundle
@@ -948,11 +969,16 @@ func run(c *vf.Ctx) {
 			xc.Report(n + "/combo/")
 		}
 	}
+	c.Set("part_a_wall_s", time.Since(tStart).Seconds())
 	// (b)
+	tb := time.Now()
 	shapes := buildShapes(c, keys)
 	schedules(c, shapes)
+	c.Set("part_b_wall_s", time.Since(tb).Seconds())
 	// (c)
+	tc := time.Now()
 	racePass(c)
+	c.Set("part_c_wall_s", time.Since(tc).Seconds())
 	c.Count("pool_objects_handed_from_one_caller_to_another", handoffs.Load())
 	c.Count("schedules_with_a_pool_object_shared_between_callers", handoffExecs.Load())
 	c.RequireFeature("purity_bundles_valid", "purity_bundles_invalid", "schedules_explored", "race_pass_runs", "pool_objects_handed_from_one_caller_to_another")
